@@ -73,29 +73,61 @@ def optname(chk, repo, rid, mod_prefixes, floor=1):
                        f"(the option --{name.replace('_', '-')} is parsed but never reaches the library)", key=f"{f.qual}::optname::{name}", fn=f.qual)
 
 
-def ctxmgr(chk, repo, rid, floor=1):
+def _ctx_findings(fnode):
+    """[yield statements whose clean-up is not protected] for one @contextmanager function"""
+    bad = []
+    ys = [n for n in walk_no_nested(fnode) if isinstance(n, ast.Expr) and isinstance(n.value, ast.Yield)]
+    for y in ys:
+        blk = owner = field = None
+        for p in ast.walk(fnode):
+            for fld in ('body', 'orelse', 'finalbody'):
+                b = getattr(p, fld, None)
+                if isinstance(b, list) and y in b:
+                    blk, owner, field = b, p, fld
+        after = blk[blk.index(y) + 1:] if blk else []
+        in_try_with_finally = isinstance(owner, ast.Try) and field == 'body' and bool(owner.finalbody)
+        ok = (not after) and (in_try_with_finally or not _has_following(fnode, owner))
+        if not ok:
+            bad.append(y)
+    return bad
+
+
+_CTX_BAD = """
+@contextmanager
+def swap(self, k, v):
+    old = self.d[k]
+    self.d[k] = v
+    yield self
+    self.d[k] = old
+"""
+_CTX_GOOD = """
+@contextmanager
+def swap(self, k, v):
+    old = self.d[k]
+    self.d[k] = v
+    try:
+        yield self
+    finally:
+        self.d[k] = old
+"""
+
+
+def ctxmgr(chk, repo, rid, mod_prefixes=None, floor=0):
+    from sa.model import AnalysisError
     chk.rule(rid, 'generator context managers: whatever follows the `yield` runs in a `finally` (state is restored when the body raises)', floor)
+    # built-in positive / negative example (the expected count on the repository is zero)
+    if not _ctx_findings(ast.parse(_CTX_BAD).body[0]) or _ctx_findings(ast.parse(_CTX_GOOD).body[0]):
+        raise AnalysisError(f"rule {rid}: built-in example of the context-manager rule no longer behaves as expected")
     for f in repo.funcs_in():
+        if mod_prefixes and not any(f.module.modname == m or f.module.modname.startswith(m + '.') for m in mod_prefixes):
+            continue
         if not any('contextmanager' in unparse(d) for d in f.node.decorator_list):
             continue
-        ys = [n for n in walk_no_nested(f.node) if isinstance(n, ast.Expr) and isinstance(n.value, ast.Yield)]
-        for y in ys:
-            # statements after the yield in its block
-            blk = None
-            for p in ast.walk(f.node):
-                for fld in ('body', 'orelse', 'finalbody'):
-                    b = getattr(p, fld, None)
-                    if isinstance(b, list) and y in b:
-                        blk, owner, field = b, p, fld
-            after = blk[blk.index(y) + 1:] if blk else []
-            in_try_with_finally = isinstance(owner, ast.Try) and field == 'body' and bool(owner.finalbody)
-            ok = (not after) and (in_try_with_finally or not _has_following(f.node, owner))
-            if after:
-                ok = False
-            chk.ob(rid, f"{f.qual}: clean-up after `yield` is in a finally", repo.loc(f, y), ok,
-                   f"{f.qual}: statements after the `yield` of a context manager are skipped when the managed block raises "
-                   "(the swapped state is never restored: a failure caught by --skip-failed leaks into the following units)",
-                   key=f"{f.qual}::ctxmgr-finally", fn=f.qual)
+        bad = _ctx_findings(f.node)
+        chk.ob(rid, f"{f.qual}: clean-up after `yield` is in a finally", f.where, not bad,
+               f"{f.qual}: statements after the `yield` of a context manager are skipped when the managed block raises "
+               "(the swapped state is never restored: a failure caught by --skip-failed leaks into the following units)",
+               key=f"{f.qual}::ctxmgr-finally", fn=f.qual)
 
 
 def _has_following(fn, owner) -> bool:
@@ -137,3 +169,39 @@ def memo_shared(chk, repo, rid, mod_prefixes, floor=0):
         chk.ob(rid, f"{f.qual}: cached function returns an immutable value", f.where, not mutable,
                f"{f.qual} is memoised but returns a mutable container: every caller receives the SAME object, so an in-place update of one parsed "
                "record's attributes (e.g. shift_breakpoint_to_closest_exon) silently changes every later parse of that text", key=f"{f.qual}::memo-shared", fn=f.qual)
+
+
+def sorted_before_use(chk, repo, rid, fqual, ctor, kw, why):
+    """the list passed as `kw` to `ctor(...)` in function `fqual` is sorted (L.sort() dominating the call, or sorted(L)) after
+    the last statement that appends to it"""
+    from sa.cfg import CFG
+    from sa import sem
+    f = repo.func(fqual)
+    chk.uses(f)
+    nf = sem.nf(repo, f)
+    cfg = CFG(nf)
+    sites = [n for n in cfg.nodes if n.kind == 'stmt' and sem.calls_in_stmt(n.ast, ctor)]
+    ok = bool(sites)
+    detail = f"{ctor}(...) call not found"
+    for sn in sites:
+        c = sem.calls_in_stmt(sn.ast, ctor)[0]
+        v = kwarg(c, kw)
+        if v is None:
+            ok, detail = False, f"{ctor}(..., {kw}=...) not passed"
+            continue
+        if isinstance(v, ast.Call) and call_name(v) == 'sorted':
+            continue
+        if not isinstance(v, ast.Name):
+            ok, detail = False, f"{kw}={unparse(v)} is not a list bound to a local (cannot decide)"
+            continue
+        L = v.id
+        sorts = [n.id for n in cfg.nodes if n.kind == 'stmt' and isinstance(n.ast, ast.Expr) and unparse(n.ast.value) == f"{L}.sort()"]
+        sorts += [n.id for n in cfg.nodes if n.kind == 'stmt' and isinstance(n.ast, ast.Assign) and unparse(n.ast.targets[0]) == L
+                  and isinstance(n.ast.value, ast.Call) and call_name(n.ast.value) == 'sorted']
+        prods = [n.id for n in cfg.nodes if n.kind == 'stmt' and any(unparse(c2.func.value) == L for c2 in sem.calls_in_stmt(n.ast, 'append'))]
+        good = [s_ for s_ in sorts if cfg.dominates(s_, sn.id) and not any(s_ in cfg.reachable(p_) and p_ in cfg.reachable(s_) and False for p_ in prods)]
+        # the sort must come after every producer: no producer is reachable from the sort
+        good = [s_ for s_ in good if not any(p_ in cfg.reachable(s_) for p_ in prods)]
+        if not good:
+            ok, detail = False, f"'{L}' is passed as {kw} without a dominating {L}.sort() after its last append"
+    chk.ob(rid, f"{f.name}: {kw} of {ctor}(...) is sorted after it was built", f.where, ok, f"{detail}: {why}", key=f"{fqual}::sorted::{kw}", fn=f.qual)
